@@ -498,6 +498,10 @@ impl<'a> B<'a> {
         // 111, aids 99, craft associated 98, coast stations 00, group 0)
         let hint = if w == 30 {
             Hint::Sentinels(vec![970_010_000, 972_000_001, 974_123_456, 111_232_001, 992_351_000, 981_234_567, 2_320_001, 23_200_001, 999_999_999, (1 << 30) - 1])
+        } else if w == 6 && (name == "timestamp" || name == "utc_second") {
+            // 60 = not available, 61 manual input, 62 dead reckoning, 63 positioning system inoperative: all
+            // passed through as numbers, and exactly the values a decoder may be tempted to act on
+            Hint::Sentinels(vec![60, 61, 62, 63, 59])
         } else {
             Hint::Plain
         };
